@@ -39,6 +39,10 @@ GEN_SPEC = {"imports": ["From God Require Import C11.GenEnv."], "items": [
     {"kind": "calls", "file": "lib/store/sqlx/orm.go", "func": "getTaggedFieldValueMap", "as": "taggedmap_skeleton"},
     {"kind": "calls", "file": "lib/store/sqlx/orm.go", "func": "unwrapFields", "as": "unwrapfields_skeleton"},
     {"kind": "calls", "file": "lib/store/sqlx/orm.go", "func": "mapStructFieldsIntoSlice", "as": "mapstruct_skeleton"},
+    {"kind": "const", "file": "lib/breaker/googlebreaker.go", "name": "k", "as": "brk_k", "type": "Q"},
+    {"kind": "const", "file": "lib/breaker/googlebreaker.go", "name": "protection", "as": "brk_protection"},
+    {"kind": "calls", "file": "lib/store/sqlx/conn.go", "func": "commonConn.queryRows", "as": "queryrows_skeleton"},
+    {"kind": "calls", "file": "lib/breaker/googlebreaker.go", "func": "googleBreaker.doReq", "as": "doreq_skeleton"},
     {"kind": "calls", "file": "lib/store/sqlx/tx.go", "func": "begin", "as": "begin_skeleton"},
     {"kind": "chain", "file": "lib/store/sqlx/tx.go", "func": "begin", "call": "db.Begin", "as": "begin_args"},
     {"kind": "chain", "file": "lib/store/sqlx/conn.go", "func": "commonConn.TransactCtx", "call": "transact", "as": "transact_args"},
@@ -83,6 +87,9 @@ RULE = ("tx: all 8 begin/commit/rollback fail-or-not combinations x all bodies o
         "plus 36 PAIRED cases (thorough: 400): two queries one after the other in the same driver process into two different fully tagged "
         "struct types that are both function-local types called T (reflect.Type.String() coincides; tags at other field positions, "
         "other field counts, swapped tags; 6 pairs x both orders x row/rows x conn/stmt/tx/txstmt at random); "
+        "plus 3 STREAM cases (thorough: 12): 300-400 consecutive queries that hit an empty result (QueryRow / QueryRowPartial / "
+        "QueryRows / QueryRowsPartial into an int64 or a tagged struct, one of the streams single-row only) on ONE conn with its "
+        "real googleBreaker under the virtual clock, followed by a query for an existing row on the same conn; "
         "non-trivial = tx case in which a Begin succeeded, or orm case with at least one row reaching a struct/primitive destination; "
         "distinct = distinct canonical case JSON")
 TRUSTED = ["database/sql Rows.Scan / convertAssign for int64, string, sql.NullInt64 and struct destinations "
@@ -94,6 +101,8 @@ TRUSTED = ["database/sql Rows.Scan / convertAssign for int64, string, sql.NullIn
            "(Model.begin_calls, Model.stmt_calls; faults other than at Begin are persistent)",
            "internal/verifsql (recording SQL driver + body-script interpreter shared by the sqlx and sqlc drivers) and "
            "sqlx.VerifSetSwitches (build tag verif; sets/restores logSQL, logSlowSQL, slowThreshold)",
+           "timex virtual clock (VerifSetNow/VerifAdvance) for the breaker's rolling window in stream cases; the breaker's random "
+           "draw is only consulted when the drop ratio is positive, which the model tracks (Model.brk_may_reject)",
            "googleBreaker lets every call of a fresh connection through (passed = true in the cases; the rejected branch "
            "is covered by c11_breaker_rejected only)"]
 ASSUMPTIONS = ["db.provider() of NewConnFromDB cannot fail (transact's provider-error branch is not exercised)",
@@ -497,6 +506,29 @@ def pairs_all(rng):
     return out
 
 
+STREAM_OPS = ["row:int", "rowp:int", "rows:int", "rowsp:int", "row:st", "rowp:st", "rows:st", "rowsp:st"]
+STREAM_FS = [{"tag": "a", "ptr": False, "k": "int"}, {"tag": "b", "ptr": False, "k": "str"}]
+
+
+def gen_stream(rng, n=300, single_only=False):
+    """n consecutive queries that hit an empty result on ONE conn (real breaker), mostly single-row ones, then a
+    query for an existing row"""
+    pool = [o for o in STREAM_OPS if o.startswith("row:") or o.startswith("rowp:")] if single_only else \
+        STREAM_OPS[:2] * 3 + STREAM_OPS[4:6] * 3 + STREAM_OPS
+    ops = [rng.choice(pool) for _ in range(n)]
+    cols = rng.choice([["a", "b"], ["b", "a"], ["b", "x", "a"]])
+    vals = {"a": rng.randrange(1, 1000), "b": "s%d" % rng.randrange(100), "x": 5}
+    mode = rng.choice(["row", "rows"])
+    final = {"t": "orm", "mode": mode, "strict": rng.random() < 0.5, "via": "conn", "ctx": rng.random() < 0.5,
+             "shape": {"d": "slice" if mode == "rows" else "elem", "ptr": False, "e": {"fs": json_copy(STREAM_FS)}},
+             "cols": cols, "rows": [[vals[c] for c in cols]]}
+    return {"t": "stream", "ops": ops, "final": final}
+
+
+def streams_all(rng):
+    return [gen_stream(rng, 300, single_only=True), gen_stream(rng, 300), gen_stream(rng, rng.randint(320, 400))]
+
+
 def generate(rng, tier, n):
     cases = []
     if tier != "search":
@@ -513,6 +545,7 @@ def generate(rng, tier, n):
         cases.append(gen_orm(rng))
     out = via_all(rng, cases)
     out += pairs_all(rng) if tier != "thorough" else [gen_pair(rng) for _ in range(400)]
+    out += streams_all(rng) if tier != "thorough" else [gen_stream(rng, rng.randint(300, 600)) for _ in range(12)]
     if tier != "search":
         for c in boundary_orm():                       # boundary stream: every entry point, plain AND Ctx form
             for via in VIAS:
@@ -582,7 +615,7 @@ def search(rng, problems):
     out += tx_sweep(rng)
     out += tx_ctx_sweep(rng)
     out += boundary_orm()
-    return via_all(rng, out) + pairs_all(rng)
+    return via_all(rng, out) + pairs_all(rng) + streams_all(rng)
 
 
 # ------------------------------------------------------------------------------------------ drive
@@ -798,7 +831,20 @@ def encode_orm(c, o):
                                              clist([cstr(x) for x in c["cols"]]), rows, status_term(o), dest, tx_obs_term(o))
 
 
+STREAM_ST = {"nil": "(Ok tt)", "notfound": "(Err 1%nat)", "notmatch": "(Err 2%nat)", "unsupported": "(Err 3%nat)",
+             "unavailable": "(Err 5%nat)", "panic": "Panic"}
+STREAM_METH = {"row": "MQueryRow", "rowp": "MQueryRowPartial", "rows": "MQueryRows", "rowsp": "MQueryRowsPartial"}
+
+
+def encode_stream(case, obs):
+    ops = clist(["(%s, %s)" % (STREAM_METH[o.split(":")[0]], cbool(o.endswith(":st"))) for o in case["ops"]])
+    st = clist([STREAM_ST.get(x, "(Err 9%nat)") for x in obs.get("st", [])])
+    return "CStream %s %s (%s)" % (ops, st, encode_orm(case["final"], obs.get("final") or {"error": "missing"}))
+
+
 def encode(case, obs):
+    if case["t"] == "stream":
+        return encode_stream(case, obs)
     if case["t"] == "pair":
         return "CPair (%s) (%s)" % (encode_orm(case["first"], obs.get("first") or {"error": "missing"}),
                                     encode_orm(case["second"], obs.get("second") or {"error": "missing"}))
@@ -807,7 +853,7 @@ def encode(case, obs):
 
 # ------------------------------------------------------------------------------------------ evidence
 def nontrivial(case, obs):
-    if case["t"] == "pair":
+    if case["t"] in ("pair", "stream"):
         return True
     if case["t"] == "tx":
         return any(c.startswith("begin:ok") for c in obs.get("calls", []))
@@ -817,6 +863,8 @@ def nontrivial(case, obs):
 
 
 def bucket(case, obs):
+    if case["t"] == "stream":
+        return ["stream", "stream:n=%d" % len(case["ops"])] + sorted({"stream:st=" + x for x in obs.get("st", [])})
     if case["t"] == "pair":
         return ["pair", "pair:%s->%s" % (case["first"]["decl"], case["second"]["decl"]),
                 "pair:via=%s->%s" % (case["first"]["via"], case["second"]["via"])]
@@ -863,6 +911,11 @@ def bucket(case, obs):
 
 
 def explain(case, obs):
+    if case["t"] == "stream":
+        bad = [i for i, (o, x) in enumerate(zip(case["ops"], obs.get("st", []))) if x != ("nil" if o.startswith("rows") else "notfound")]
+        return ("a run of %d queries hitting an empty result on one breaker-guarded conn: query #%s did not report %s, or the "
+                "following query for an existing row was not answered"
+                % (len(case["ops"]), bad[0] if bad else "-", "ErrNotFound / nil"))
     if case["t"] == "pair":
         return ("two queries in one process into two different struct types of the same name (%s then %s): one of them was "
                 "not filled by the db tags of ITS OWN type (C11.Exec.spec_orm on each query separately)"
